@@ -40,7 +40,7 @@ THEOREM_PRED = {'C10_solved_iff': 'IsProblemSolved', 'C10_indiffInfOrUnb_iff': '
                 'C10_counterexample_infeasible': 'IsProblemInfeasible',
                 'C10_solvedOrFeasible': 'IsProblemSolvedOrFeasible', 'C10_counterexample_solvedOrFeasible': 'IsProblemSolvedOrFeasible',
                 'C10_objective': 'objective', 'C10_counterexample_objective': 'objective', 'C10_no_objective': 'objective',
-                'C10_report_model_eq_generated': 'objective', 'C10_code_echo': 'code',
+                'C10_report_model_eq_generated': 'objective', 'C10_code_echo': 'code', 'C10_alt': 'altsol', 'C10_chain_forwards_code': 'altsol',
                 'C10_enum': 'enum', 'C10_registry': 'table', 'C10_ranges': 'table', 'C10_rangeRows': 'table',
                 'C10_predicate_inclusions': 'Is'}
 
@@ -111,7 +111,7 @@ def intervals(codes):
 
 def build_harness(ck, ndebug=True):
     vis = os.path.join(REPO, 'solvers', 'visitor')
-    srcs = [os.path.join(vis, f) for f in ['visitorbackend.cc', 'visitorcommon.cc', 'visitormodelapi.cc',
+    srcs = [os.path.join(vis, f) for f in ['visitorcommon.cc', 'visitormodelapi.cc',
                                             'visitor-modelapi-connect.cc', 'model-mgr-with-std-pb.cc']]
     srcs.append(os.path.join(VERIF, 'harness', 'h_status.cc'))
     objs = ck.objects(srcs, flags=['-O0'] + (['-DNDEBUG'] if ndebug else []), extra_inc=[vis, os.path.join(BUILD, 'gen')],
@@ -124,14 +124,15 @@ def run_lines(cmd, inp=None, cwd=None):
     return p.returncode, p.stdout.split('\n'), p.stderr
 
 
-def nl_objectives(path):
+def nl_objectives(path, mopts=()):
     """number of objectives the driver delivers for this NL model: header line 2 = `vars cons objs …`;
-    with the default options (objno=1, no obj:multi) at most the first objective is used"""
+    with the default options (objno=1, no obj:multi) at most the first objective is used,
+    with obj:multi=1 all of them"""
     hdr = open(path).read().split('\n')[1].split()
-    return min(int(hdr[2]), 1)
+    return int(hdr[2]) if 'obj:multi=1' in mopts else min(int(hdr[2]), 1)
 
 
-def canon_report(line, expected_nobj):
+def canon_report(line, expected_nobj, stub=0):
     """harness `report c n p d | objShown=… code=… nx=… ny=… hs=… hsobj=… nobjpost=…` ->
        (op line for the model, canonical observation, dict).
        The model's input `nObj` is NOT what GetSolution() returned but what it must return:
@@ -139,18 +140,22 @@ def canon_report(line, expected_nobj):
        solver returned and whether or not primal/dual vectors exist.  The observed size is only compared
        with that expectation by the caller."""
     head, obs = line.split(' | ', 1)
-    _, c, n, p, d = head.split(' ')
+    _, c, n, p, d, k = head.split(' ')
     if obs.startswith('sol-unreadable'):
-        return None, None, {'error': obs, 'code': int(c), 'nobj_in': int(n), 'primal': int(p), 'dual': int(d)}
+        return None, None, {'error': obs, 'code': int(c), 'nobj_in': int(n), 'primal': int(p), 'dual': int(d), 'nalt_in': int(k)}
     kv = dict(x.split('=', 1) for x in obs.split(' '))
     o = {'code': int(c), 'nobj_in': int(n), 'primal': int(p), 'dual': int(d),
          'objShown': int(kv['objShown']), 'objValText': int(kv['objValText']), 'written': int(kv['code']), 'nx': int(kv['nx']), 'ny': int(kv['ny']),
          'hs': int(kv['hs']), 'hsobj': kv['hsobj'], 'nobj': int(kv['nobjpost']), 'status': int(kv['status']),
-         'samemsg': int(kv['samemsg']), 'objno': int(kv['objno']), 'rc': int(kv['rc'])}
+         'samemsg': int(kv['samemsg']), 'objno': int(kv['objno']), 'rc': int(kv['rc']),
+         'nalt_in': int(k), 'stub': stub, 'multi': int(kv['multi']), 'nfiles': int(kv['nalt']),
+         'altcodes': [] if kv['altcodes'] == '-' else kv['altcodes'].split(','),
+         'hfs': [] if kv['hfs'] == '-' else [int(x) for x in kv['hfs'].split(',')], 'altmsg': int(kv['altmsg'])}
     o['nobj_expected'] = expected_nobj
-    op = 'report %d %d %d %d' % (o['code'], expected_nobj, o['primal'], o['dual'])
-    can = '%s | objShown=%d code=%d primal=%d dual=%d objval=%d' % (
-        op, o['objShown'], o['written'], 1 if o['nx'] > 0 else 0, 1 if o['ny'] > 0 else 0, 0 if o['hsobj'] == 'nan' else 1)
+    op = 'report %d %d %d %d %d %d' % (o['code'], expected_nobj, o['primal'], o['dual'], o['nalt_in'], stub)
+    can = '%s | objShown=%d code=%d primal=%d dual=%d objval=%d alt=%s' % (
+        op, o['objShown'], o['written'], 1 if o['nx'] > 0 else 0, 1 if o['ny'] > 0 else 0, 0 if o['hsobj'] == 'nan' else 1,
+        ','.join(o['altcodes']))
     return op, can, o
 
 
@@ -163,7 +168,7 @@ def run(ck):
                        os.path.join(BUILD, 'tr'), inc], timeout=600)
     ck.log((out.strip() or err.strip())[-600:])
     translator_ok = rc == 0
-    N_THEOREMS = 21     # the full-strength set; the unchanged tree has 28 (partial + counterexample theorems)
+    N_THEOREMS = 30
     proof_ok, failing = False, []
     if translator_ok:
         proof_ok, failing = ck.proof_stage('MpVerif.C10.Props', 'MpVerif/C10/Props.lean', 'C10_',
@@ -338,18 +343,26 @@ def run(ck):
     # tiny.nl has one objective, noobj.nl none.  Documented postsolve behaviour: one objective value per model
     # objective.  This is an *expectation* checked on every run (observed sol.objvals.size() vs the NL header),
     # never an input: the model and the oracle are driven by the NL model's objective count.
-    models = [('tiny', []), ('noobj', [])]
+    STUB = 'sol:stub=@DIR@/alt'
+    # (model, options, nobj values the solver returns, nalt values, (primal,dual) combinations, all codes?)
+    PD4 = [(0, 0), (0, 1), (1, 0), (1, 1)]
+    models = [('tiny', [], (0, 1), (0,), PD4, True),
+              ('noobj', [], (1,), (0,), PD4, True),
+              ('twoobj', ['obj:multi=1'], (2,), (0,), PD4, True),              # >1 objective values: "Individual objective values"
+              ('tiny', [STUB], (1,), (0, 1, 2), [(0, 0), (1, 1)], True),       # intermediate solutions -> <solstub>N.sol
+              ('tiny', [], (1,), (1, 2), [(1, 1)], False)]                     # no sol:stub: nothing must be written
     if not quick:
-        models += [('tiny', ['sol:chk:mode=0']), ('mip2', []), ('twoobj', [])]
+        models += [('tiny', ['sol:chk:mode=0'], (1,), (0,), PD4, True), ('mip2', [], (1,), (0,), PD4, True), ('twoobj', [], (1,), (0,), PD4, True),
+                   ('twoobj', ['obj:multi=1', STUB], (0, 2), (0, 1, 2), PD4, True), ('mip2', [STUB], (1,), (2,), PD4, True)]
     jobs = []
     all_codes = list(range(-200, 1000))
-    for mi, (mn, mopts) in enumerate(models):
-        nobjs = (0, 1) if mi == 0 else (1,)
-        cs = all_codes if (mi <= 1 or not quick) else sorted(set([-200, -1, 0, 99, 100, 150, 199, 200, 299, 300, 349, 350, 399, 400, 449, 450, 469, 470, 499, 500, 550, 999]
-                                                   + [rnd.randint(-200, 999) for _ in range(150)]))
+    some_codes = sorted(set([-200, -1, 0, 99, 100, 150, 199, 200, 299, 300, 349, 350, 399, 400, 449, 450, 469, 470, 499, 500, 550, 999]
+                            + [rnd.randint(-200, 999) for _ in range(150)]))
+    for mi, (mn, mopts, nobjs, nalts, pds, allc) in enumerate(models):
+        cs = list(all_codes if allc else some_codes)
         cs = cs + ([] if quick else [-1000, -201, 1000, 5000, 2 ** 31 - 1, -2 ** 31])
-        ops = ['%d %d %d %d' % (c, n, p, d) for c in cs for n in nobjs for p in (0, 1) for d in (0, 1)]
-        nchunk = 4 if mi == 0 else 2 if mi == 1 else 1
+        ops = ['%d %d %d %d %d' % (c, n, p, d, k) for c in cs for n in nobjs for (p, d) in pds for k in nalts]
+        nchunk = max(1, len(ops) // 2500)
         for j in range(nchunk):
             jobs.append((mn, mopts, ops[j::nchunk], '%s_%d_%d' % (mn, mi, j)))
 
@@ -359,7 +372,7 @@ def run(ck):
         shutil.rmtree(d, ignore_errors=True)
         os.makedirs(d)
         shutil.copy(os.path.join(VERIF, 'corpus', 'C10', mn + '.nl'), os.path.join(d, 'm.nl'))
-        p = subprocess.run([exe, 'report', os.path.join(d, 'm')] + mopts, input='\n'.join(ops) + '\n',
+        p = subprocess.run([exe, 'report', os.path.join(d, 'm')] + [o.replace('@DIR@', d) for o in mopts], input='\n'.join(ops) + '\n',
                            capture_output=True, text=True, cwd=d)
         return mn, mopts, ops, p.returncode, [l for l in p.stdout.split('\n') if l.startswith('report ')], p.stderr[-800:]
     with ThreadPoolExecutor(max_workers=4) as ex:
@@ -373,9 +386,10 @@ def run(ck):
                              {'model': mn, 'options': mopts, 'first_missing': ops[len(lines)] if len(lines) < len(ops) else None,
                               'replay': 'echo "<code> <nobj> <primal> <dual>" | h_status report corpus/C10/%s %s' % (mn, ' '.join(mopts))}, found_input=False)
         mops, cans, obs = [], [], []
-        nobj_model = nl_objectives(os.path.join(VERIF, 'corpus', 'C10', mn + '.nl'))
+        nobj_model = nl_objectives(os.path.join(VERIF, 'corpus', 'C10', mn + '.nl'), mopts)
+        stub = 1 if any(o.startswith('sol:stub=') for o in mopts) else 0
         for l in lines:
-            op, can, o = canon_report(l, nobj_model)
+            op, can, o = canon_report(l, nobj_model, stub)
             if op is None:
                 ck.add_violation('report:no-sol-file', 'no readable .sol file for scripted answer %s on %s' % (o, mn), {'answer': o, 'model': mn}, found_input=True)
                 continue
@@ -388,14 +402,21 @@ def run(ck):
             k = doc.cls(o['code'])
             key = '%s/nobj%d' % (k, min(nobj_model, 2))
             hist['report_by_class'][key] = hist['report_by_class'].get(key, 0) + 1
-            distinct.add((mn, tuple(mopts), o['code'], o['nobj_in'], o['primal'], o['dual']))
+            distinct.add((mn, tuple(mopts), o['code'], o['nobj_in'], o['primal'], o['dual'], o['nalt_in']))
+            hist['alt_files'] = hist.get('alt_files', 0) + o['nfiles']
             if m is not None and (i >= len(m) or m[i] != can):
                 disagree('report', mops[i], can, m[i] if i < len(m) else None)
             # oracle on the real run
             # independent of what GetSolution() returned: shown <=> candidate code and the NL model has an objective,
             # for every primal/dual presence combination
             want_shown = (k in CANDIDATE) and nobj_model > 0
-            tag = (mn, tuple(mopts), o['nobj_in'], o['primal'], o['dual'])
+            tag = (mn, tuple(mopts), o['nobj_in'], o['primal'], o['dual'], o['nalt_in'])
+            # intermediate / pool solutions: one numbered file per reported solution iff sol:stub, each with the reported code
+            want_files = o['nalt_in'] if stub else 0
+            if o['nfiles'] != want_files or o['multi'] != stub or len(o['hfs']) != (o['nalt_in'] if stub else 0):
+                rep_fail.setdefault('altsol:file-count', []).append((o['code'], tag))
+            if any(x != str(o['code']) for x in o['altcodes']) or any(x != o['code'] for x in o['hfs']) or not o['altmsg']:
+                rep_fail.setdefault('altsol:code-not-echoed', []).append((o['code'], tag))
             if o['nobj'] != nobj_model:
                 rep_fail.setdefault('objvals:size-differs-from-model-objectives', []).append((o['code'], tag))
             if o['objShown'] and not want_shown:
@@ -415,12 +436,12 @@ def run(ck):
         for c, tag in lst:
             by_code.setdefault(c, tag)
         for a, b in intervals(by_code.keys()):
-            mn, mopts, n, p, d = by_code[a]
+            mn, mopts, n, p, d, kalt = by_code[a]
             ck.add_violation('%s:%d..%d' % (kind, a, b),
-                             '%s for reported solve codes %d..%d (documented class %s): e.g. scripted answer code=%d, %d objective value(s) from the solver, primal=%d dual=%d on corpus/C10/%s.nl (%d objective(s) in the model)' %
-                             (kind, a, b, doc.cls(a), a, n, p, d, mn, nl_objectives(os.path.join(VERIF, 'corpus', 'C10', mn + '.nl'))),
-                             {'kind': kind, 'codes': [a, b], 'example': {'code': a, 'nobj': n, 'primal': p, 'dual': d, 'model': mn, 'options': list(mopts)},
-                              'replay': 'build harness/h_status.cc (checks/c10.py:build_harness); echo "%d %d %d %d" | h_status report corpus/C10/%s %s; inspect %s.sol' % (a, n, p, d, mn, ' '.join(mopts), mn)},
+                             '%s for reported solve codes %d..%d (documented class %s): e.g. scripted answer code=%d, %d objective value(s) from the solver, primal=%d dual=%d, %d intermediate solution(s) on corpus/C10/%s.nl (%d objective(s) delivered) with options [%s]' %
+                             (kind, a, b, doc.cls(a), a, n, p, d, kalt, mn, nl_objectives(os.path.join(VERIF, 'corpus', 'C10', mn + '.nl'), mopts), ' '.join(mopts)),
+                             {'kind': kind, 'codes': [a, b], 'example': {'code': a, 'nobj': n, 'primal': p, 'dual': d, 'nalt': kalt, 'model': mn, 'options': list(mopts)},
+                              'replay': 'build harness/h_status.cc (checks/c10.py:build_harness); copy corpus/C10/%s.nl to <dir>/m.nl; echo "%d %d %d %d %d" | h_status report <dir>/m %s (with @DIR@ = <dir>); inspect <dir>/m.sol and <dir>/alt<N>.sol' % (mn, a, n, p, d, kalt, ' '.join(mopts))},
                              found_input=True)
 
     # ------------------------------------------------------------ thorough: the same with assertions enabled
@@ -437,7 +458,7 @@ def run(ck):
         shutil.rmtree(d, ignore_errors=True)
         os.makedirs(d)
         shutil.copy(os.path.join(VERIF, 'corpus', 'C10', 'tiny.nl'), os.path.join(d, 'm.nl'))
-        ops = ['%d 1 %d %d' % (c, c % 2, (c // 2) % 2) for c in range(-199, 1000)]
+        ops = ['%d 1 %d %d 0' % (c, c % 2, (c // 2) % 2) for c in range(-199, 1000)]
         p = subprocess.run([exe_dbg, 'report', os.path.join(d, 'm')], input='\n'.join(ops) + '\n', capture_output=True, text=True, cwd=d)
         dl = [canon_report(l, 1)[1] for l in p.stdout.split('\n') if l.startswith('report ')]
         mm = model([x.split(' | ')[0] for x in dl if x])
